@@ -46,21 +46,35 @@ var c20Kinds = []c20Kind{
 	{Name: "yml-layer", Arg: "y.z.yml", Resolves: true, Format: "yml", Want: `[{"p":1,"q":2}]`},
 	{Name: "virtual-of-yml", Arg: "y.z.toml", Resolves: true, Format: "toml", Want: `[{"p":1,"q":2}]`},
 	{Name: "json-layer-as-yaml", Arg: "j.yaml", Resolves: true, Format: "yaml", Want: `[{"j":[1,"x"]}]`},
+	// evaluation failures of other kinds than a missing required value
+	{Name: "failing-missing-parent-layer", Arg: "orphan.child.yaml", Fails: true},
+	{Name: "failing-type-clash", Arg: "t.u.yaml", Fails: true},
+	{Name: "failing-unparsable", Arg: "broken.yaml", Fails: true},
+	// two files with the same base name in different directories
+	{Name: "dir1-values", Arg: "d1/v.yaml", Resolves: true, Format: "yaml", Want: `[{"from":"d1"}]`},
+	{Name: "dir2-values", Arg: "d2/v.yaml", Resolves: true, Format: "yaml", Want: `[{"from":"d2"}]`},
 }
 
 func c20Setup(dir string) error {
 	files := map[string]string{
-		"a.yaml":   "x: 1\nl: [1]\n",
-		"a.b.yaml": "y: 2\nl: [2]\n",
-		"a.b.ini":  "y=2\n",
-		"n.txt":    "hello\n",
-		"bad.yaml": "r: $required\n",
-		"s.yaml":   "k: 1\n---\nk: 2\n",
-		"y.yml":    "p: 1\n",
-		"y.z.yml":  "q: 2\n",
-		"j.json":   "{\"j\": [1, \"x\"]}\n",
+		"a.yaml":            "x: 1\nl: [1]\n",
+		"a.b.yaml":          "y: 2\nl: [2]\n",
+		"a.b.ini":           "y=2\n",
+		"n.txt":             "hello\n",
+		"bad.yaml":          "r: $required\n",
+		"s.yaml":            "k: 1\n---\nk: 2\n",
+		"y.yml":             "p: 1\n",
+		"y.z.yml":           "q: 2\n",
+		"j.json":            "{\"j\": [1, \"x\"]}\n",
+		"orphan.child.yaml": "o: 1\n",
+		"t.yaml":            "l: [1]\n",
+		"t.u.yaml":          "l: {a: 1}\n",
+		"broken.yaml":       "a: [\n",
+		"d1/v.yaml":         "from: d1\n",
+		"d2/v.yaml":         "from: d2\n",
 	}
 	for n, c := range files {
+		os.MkdirAll(filepath.Dir(filepath.Join(dir, n)), 0o755)
 		if err := os.WriteFile(filepath.Join(dir, n), []byte(c), 0o644); err != nil {
 			return err
 		}
